@@ -65,9 +65,10 @@ func scratchLeaks(e *env, checkTransient bool) (transient, access []string) {
 }
 
 func TestTxSequences(t *testing.T) {
+	skipIfExec(t)
 	knownA := stats.IsKnown("F-C12-a")
 	knownB := stats.IsKnown("F-C12-b")
-	stats.Check(t, 300, 3000, func(t *rapid.T) {
+	stats.Check(t, 400, 4000, func(t *rapid.T) {
 		e := newEnv()
 		ntx := rapid.IntRange(2, 5).Draw(t, "ntx")
 		var txs []*seqTx
@@ -246,6 +247,7 @@ func compareStateOpt(e *env, transient bool) []string {
 
 // F-C12-a: AccountDB.Prepare resets the access list but not the transient storage.
 func TestProbeTransientSurvivesPrepare(t *testing.T) {
+	skipIfExec(t)
 	e := newEnv()
 	w := &node{kind: kCall, steps: []step{{k: sTstore, slot: 0, val: 7}}, out: oReturn}
 	w.number(0)
@@ -270,6 +272,7 @@ func TestProbeTransientSurvivesPrepare(t *testing.T) {
 
 // F-C12-b: evm.create keeps the state changes of a creation that fails with ErrCodeStoreOutOfGas.
 func TestProbeCodeStoreOutOfGasNotReverted(t *testing.T) {
+	skipIfExec(t)
 	saved := guardDeposit
 	guardDeposit = false
 	defer func() { guardDeposit = saved }()
